@@ -119,7 +119,7 @@ def run(chk, tier, scale=1.0):
 def replay(chk, rep):
     w = rep["witness"]
     if w.get("burst"):
-        r = pcommon.burst_worker(dict(build=prun.build_daemon("c01-replay"), seed=w["seed"], n=w["n"], service=w["service"], after=w.get("after")))
+        r = pcommon.burst_worker(dict(build=prun.build_daemon("c01-replay"), seed=w["seed"], n=w["n"], service=w["service"], after=w.get("after"), sock=w.get("sock")))
         for v in r["viol"]:
             print(v[3])
         return 1 if r["viol"] else 0
